@@ -1218,6 +1218,27 @@ fn exec_wasm_on<A: Api>(mut apps: Vec<AppOf<A>>, sym_fn: fn(&AppOf<A>, &str) -> 
                 }),
                 |r| fmt_records(&r),
             ),
+            // App::contract_storage_mut: the test author's direct write access to one contract's key space
+            "cs-set" => outcome(
+                guarded(|| {
+                    let mut s = app.contract_storage_mut(&Addr::unchecked(real(a(1))));
+                    s.set(&unhex(a(2)), &unhex(a(3)));
+                    Ok(())
+                }),
+                |_| "ok".into(),
+            ),
+            "cs-rm" => outcome(
+                guarded(|| {
+                    let mut s = app.contract_storage_mut(&Addr::unchecked(real(a(1))));
+                    s.remove(&unhex(a(2)));
+                    Ok(())
+                }),
+                |_| "ok".into(),
+            ),
+            "cs-get" => outcome(
+                guarded(|| Ok(app.contract_storage(&Addr::unchecked(real(a(1)))).get(&unhex(a(2))))),
+                |r| r.map(|v| format!("some {}", hex(&v))).unwrap_or_else(|| "none".into()),
+            ),
             "dump" => dump(app),
             "rawhash" => raw_hash(app),
             // verdict slot of slice wasm-bech-mix (filled in by exec_wasm_bech_mix)
